@@ -135,7 +135,8 @@ F10(r) ==
      \*     log of evaluating the decompiled program, h counts on
      {f \in {<<"C10", r.id, vi, ei, "rep-effects">> : vi \in Idx(r.vars), ei \in Idx(r.envs)} :
         LET v == r.vars[f[3]] IN
-        v.cout = "ok" /\ v.dok /\ AllBound(r.tree, r.envs[f[4]]) /\
+        \* (trees with a deliberately ill-typed and/or operand are only judged for folding)
+        ~r.illtyped /\ v.cout = "ok" /\ v.dok /\ AllBound(r.tree, r.envs[f[4]]) /\
         LET run == v.runs[f[4]] IN
         \/ ~Match(v.dtree, r.envs[f[4]], run.eff, v.m.fe)
         \/ \E k \in Idx(run.reps) : ~Match(v.dtree, r.envs[f[4]], run.reps[k].eff, v.m.fe)}
@@ -143,7 +144,7 @@ F10(r) ==
      \* (c') the deferred failure surfaces from Eval exactly when plain evaluation reaches it
      {f \in {<<"C10", r.id, vi, ei, "deferred">> : vi \in Idx(r.vars), ei \in Idx(r.envs)} :
         LET v == r.vars[f[3]] IN
-        v.cout = "ok" /\ CountLeaf(r.tree, "h") = 0 /\ ~v.m.ro /\ AllBound(r.tree, r.envs[f[4]]) /\
+        ~r.illtyped /\ v.cout = "ok" /\ CountLeaf(r.tree, "h") = 0 /\ ~v.m.ro /\ AllBound(r.tree, r.envs[f[4]]) /\
         LET d == Den(r.tree, r.envs[f[4]]) IN
         ~OutOfDomain(d) /\ Ok(d) /\ ~OutcomeEq(v.runs[f[4]].res, d)}
 N10(r) ==
